@@ -325,6 +325,62 @@ def run_odd(seed, n, res):
             res.violations.append(genexec.divergence('C06', 'gen_classes', f'{d[0]} of an odd language ({", ".join(kinds)})',
                                                      {'spec': spec, 'odd': kinds, 'difference': d[1]}))
 
+def genexec_measure(seed: int, n: int) -> dict:
+    """the seeded-defect experiment (`tools/genexec_seeded.py`): `n` languages of the quick check on the (mutated)
+    implementation, the hand model (`classes`) and the (regenerated) factory (`gen_classes`).  impl != hand: `check_inventory`
+    reports something (factory raises, class table differs from the declaration / the model); gen = the generated factory on
+    the language graph read off the real object (`fromLG`), compared on error class, ordered schema and signature answers.
+    Extra counters: `gen_lang_ne_impl` (the generated factory on the language graph built from the language, `fromLang`),
+    `gen_table_ne_impl` (schema equal but the class table `Py/AbsClasses.lean` reads differs from the one the real classes
+    show), `odd_cases` / `odd_gen_ne_impl` (the odd languages, no hand model)"""
+    from maltoolbox.language import LanguageGraph
+    rnd = random.Random(seed)
+    st = {'cases': 0, 'impl_ne_hand': 0, 'gen_follows_impl': 0, 'gen_ne_impl': 0, 'impl_crash': 0, 'gen_lang_ne_impl': 0,
+          'gen_table_ne_impl': 0, 'odd_cases': 0, 'odd_gen_ne_impl': 0, 'examples': []}
+    def note(kind, info):
+        if len([e for e in st['examples'] if e[0] == kind]) < 2: st['examples'].append([kind, info])
+    specs = []
+    for i in range(n):
+        r = random.Random(rnd.getrandbits(48))
+        specs.append(LangGen(r, knobs={'dup_assoc_names': 0.5, 'zero_mult': 0.12, 'composite_def_ttc': 0.3}).gen())
+    lgs, sigs = [], [signatures(s) for s in specs]
+    for s in specs:
+        try: lgs.append(LanguageGraph(copy.deepcopy(s)))
+        except Exception as e: lgs.append(e)
+    def twin(q):
+        q['sigs'] = sigs[q['case']]
+        if not isinstance(lgs[q['case']], Exception): q['lg'] = lg_payload(lgs[q['case']])
+        return q
+    hand, gen = genexec.run_both([{'op': 'classes', 'case': i, 'lang': lang_payload(s)} for i, s in enumerate(specs)], 'gen_classes', rewrite=twin)
+    for i, spec in enumerate(specs):
+        st['cases'] += 1
+        if isinstance(lgs[i], Exception):
+            st['impl_crash'] += 1; note('impl-crash', f'LanguageGraph(): {type(lgs[i]).__name__}'); continue
+        if 'error' in hand[i] or 'error' in gen[i]:
+            note('driver-error', [hand[i].get('error'), gen[i].get('error')]); continue
+        mo = hand[i]['model']
+        v = check_inventory(spec, mo)
+        real = real_factory(lgs[i], sigs[i])
+        d = generated_differs(real, gen[i]['model']['fromLG'])
+        if generated_differs(real, gen[i]['model']['fromLang']): st['gen_lang_ne_impl'] += 1
+        if d:
+            st['gen_ne_impl'] += 1; note('gen!=impl', {'spec': spec, 'what': d[0], 'difference': d[1]})
+        elif not real['error']:
+            try:
+                assets, assocs = class_inventory(spec)
+                t = generated_differs(real, gen[i]['model']['fromLG'], ([[a[0], a[1]] for a in assets], [r[:7] for r in assocs]), len(spec['associations']))
+                if t: st['gen_table_ne_impl'] += 1; note('gen-table!=impl', {'what': t[0], 'difference': t[1]})
+            except Exception: pass
+        if v:
+            st['impl_ne_hand'] += 1
+            if not d:
+                st['gen_follows_impl'] += 1; note('gen=impl!=hand', {'impl vs hand': v.what[:300], 'fingerprint': v.fingerprint})
+    res = Result(); run_odd(seed, max(20, n // 3), res)
+    st['odd_cases'] = res.distribution.get('generated_code_odd_languages_compared', 0)
+    st['odd_gen_ne_impl'] = len(res.violations)
+    for x in res.violations[:2]: note('gen!=impl', {'odd': x.replay.get('odd'), 'what': x.what[:200], 'difference': x.replay.get('difference')})
+    return st
+
 def run(seed, tier, lean) -> Result:
     rnd = random.Random(seed)
     res = Result(rule='random languages (inheritance, inherited defenses, defenses with composite / numeric TTCs, duplicate association names, every multiplicity form): class inventory '
